@@ -1,4 +1,5 @@
 import ShellOp.Proofs.Queue
+import ShellOp.Proofs.TransQueue
 /-!
 # C05 — the task queue is a faithful list
 
@@ -123,5 +124,59 @@ example : (run [.addLast 1, .addAfter 7 2, .addLast 1, .addBefore 1 3, .pick,
 unconditionally) leaves a nil slot for an absent id. -/
 theorem addAfter_unrepaired_witness :
     none ∈ addAfterLoop 7 2 [some 1] false := by decide
+
+/-! ## Tie T4: the model is the code
+
+`ShellOp.Trans.*` is regenerated on every run from `pkg/task/queue/task_queue.go` by
+`extract/translate.go` (statement by statement: the index loops, `append`, slicing, the early
+`return`s, `break`). The theorems below say that each translated function computes exactly what the
+hand-written model computes, for every queue content (nil slots included) and every argument — so
+the theorems above, which are about the model, are about the translated code. -/
+
+open ShellOp.Proofs.TransQueue in
+/-- Every slice-level primitive of `task_queue.go`, as translated from the current source, equals
+its model. -/
+theorem translated_primitives_eq_model (q : Items) (id t : Id) (f : Slot → Bool) :
+    ShellOp.Trans.addFirst q (some t) = ((), addFirst q t) ∧
+    ShellOp.Trans.addLast q (some t) = ((), addLast q t) ∧
+    ShellOp.Trans.removeFirst q = removeFirst q ∧
+    ShellOp.Trans.removeLast q = removeLast q ∧
+    ShellOp.Trans.getLast q = (getLast q, q) ∧
+    ShellOp.Trans.GetFirst q = (getFirst q, q) ∧
+    ShellOp.Trans.get q id = (get q id, q) ∧
+    ShellOp.Trans.addAfter q id (some t) = ((), addAfter q id t) ∧
+    ShellOp.Trans.addBefore q id (some t) = ((), addBefore q id t) ∧
+    ShellOp.Trans.remove q id = remove q id ∧
+    ShellOp.Trans.filterQ q (some f) = ((), q.filter f) ∧
+    ShellOp.Trans.filterQ q none = ((), q) :=
+  ⟨addFirst_eq q t, addLast_eq q t, removeFirst_eq q, removeLast_eq q, getLast_eq q, getFirst_eq q,
+   get_eq q id, addAfter_eq q id t, addBefore_eq q id t, remove_eq q id, filter_eq q f, filter_nil_fn q⟩
+
+open ShellOp.Proofs.TransQueue in
+/-- The public wrappers (`AddFirst` … `Remove`): lock and metrics dropped, they are their primitive. -/
+theorem translated_wrappers_eq_model (q : Items) (id t : Id) :
+    ShellOp.Trans.AddFirst q (some t) = ((), addFirst q t) ∧
+    ShellOp.Trans.AddLast q (some t) = ((), addLast q t) ∧
+    ShellOp.Trans.RemoveFirst q = removeFirst q ∧
+    ShellOp.Trans.RemoveLast q = removeLast q ∧
+    ShellOp.Trans.AddAfter q id (some t) = ((), addAfter q id t) ∧
+    ShellOp.Trans.AddBefore q id (some t) = ((), addBefore q id t) ∧
+    ShellOp.Trans.Remove q id = remove q id :=
+  ⟨AddFirst_eq q t, AddLast_eq q t, RemoveFirst_eq q, RemoveLast_eq q, AddAfter_eq q id t, AddBefore_eq q id t,
+   Remove_eq q id⟩
+
+/-- The critical section of `case Success, Keep:` in the worker loop (`Start()`), as translated from
+the current source — the three loops, the conditional removal, in this order — is `applyResult`. -/
+theorem translated_result_application_eq_model (q : Items) (t : Id) (st : Status)
+    (hst : st = .success ∨ st = .keep) (head after tail : List Id) :
+    ShellOp.Trans.applyOk q t st (after.map some) (head.map some) (tail.map some)
+      = ((), applyResult q t st head after tail) :=
+  ShellOp.Proofs.TransQueue.applyOk_eq q t st hst head after tail
+
+/-- Non-vacuity / sanity: the translated code run on a concrete queue. -/
+example : (ShellOp.Trans.addAfter [some 1, some 2, some 1] 1 (some 9)).2 = [some 1, some 9, some 2, some 1]
+    ∧ (ShellOp.Trans.remove [some 1, some 2, some 1] 2) = (some 2, [some 1, some 1])
+    ∧ (ShellOp.Trans.applyOk [some 1, some 2] 1 .success [some 5, some 6] [some 4] [some 7]).2
+        = [some 4, some 5, some 6, some 2, some 7] := by decide
 
 end ShellOp.Queue.C05
